@@ -22,8 +22,8 @@ def P(name, ty, d=False):
     return {'name': name, 'ty': ty, 'def': d}
 
 
-def O(tag, params, fn=True, me=False, star='none'):
-    return {'tag': tag, 'fn': fn, 'me': me, 'params': tuple(params), 'star': star}
+def O(tag, params, fn=True, me=False, star='none', nokw=False):
+    return {'tag': tag, 'fn': fn, 'me': me, 'params': tuple(params), 'star': star, 'nokw': nokw}
 
 
 def L(ovs, excl=False):
@@ -70,6 +70,11 @@ CURATED = [
     # three layers
     [L([O('l1', [P('x', 'D')])]), L([O('l2', [P('x', 'B')]), O('l2c', [P('x', 'C')])]), L([O('l3', [P('x', 'Any')])])],
     [L([O('l1', [P('x', 'Int')])]), L([O('l2', [P('x', 'B')])], excl=True), L([O('l3', [P('x', 'Any')])])],
+    # no_kwargs functions: `a => b` arguments reach them as positional mapping values; a family mixing both kinds is ambiguous
+    [L([O('nk', [P('x', 'Any')], nokw=True), O('nk2', [P('x', 'Any'), P('y', 'Any')], nokw=True)])],
+    [L([O('nk', [P('x', 'Any')], nokw=True), O('kw', [P('x', 'A')])])],
+    [L([O('nk', [P('x', 'B')], nokw=True)]), L([O('kw', [P('x', 'A'), P('y', 'Int', True)])])],
+    [L([O('nkstar', [], star='Any', nokw=True)])],
     # keyword names differ between overloads
     [L([O('xy', [P('x', 'A'), P('y', 'A')]), O('yx', [P('y', 'A'), P('x', 'A')])])],
 ]
@@ -95,7 +100,7 @@ def random_family(rng):
                 # a hidden parameter after a defaulted one needs a default itself in Python; the harness gives it one
             star = rng.choice(TYPES) if rng.random() < 0.2 else 'none'
             kind = rng.choice(['f', 'f', 'm', 'e'])
-            ovs.append(O('t%d' % tagn, params, fn=kind in 'fe', me=kind in 'me', star=star))
+            ovs.append(O('t%d' % tagn, params, fn=kind in 'fe', me=kind in 'me', star=star, nokw=rng.random() < 0.12))
         # a method needs a first visible parameter that is not *args-only
         ovs = [o for o in ovs if not (o['me'] and not [p for p in o['params'] if p['ty'] != 'hidden'])] or \
               [O('t%d' % tagn, [P('x', 'Any')])]
@@ -132,13 +137,13 @@ Spec == Init /\\ [][Next]_<<fam, call, out>>
 LayerMatches(f, c) ==
     LET g == Gather(Families[f], c)
     IN {{o \\in g[i] : MapArgs(o, c).ok /\\ TypesFit(MapArgs(o, c))} : i \\in 1..Len(g)}
-SinglePassOrderIndependent ==
+SinglePassOrderIndependent == MixedFlags(Families[fam], call) \\/
     \\A ms \\in LayerMatches(fam, call) : \\A p, q \\in Perms(ms) : SinglePass(p, call) = SinglePass(q, call)
-CollectThenPickOrderIndependent ==
+CollectThenPickOrderIndependent == MixedFlags(Families[fam], call) \\/
     \\A ms \\in LayerMatches(fam, call) : \\A p, q \\in Perms(ms) : CollectThenPick(p, call) = CollectThenPick(q, call)
 \\* and it is the documented rule: the layer decided by Resolve agrees with collect-then-pick on that layer
 PickIsResolve ==
-    out.res \\in {"run", "Ambiguous"} =>
+    (out.res \\in {"run", "Ambiguous"} /\\ ~MixedFlags(Families[fam], call)) =>
         \\E ms \\in LayerMatches(fam, call) : ms # {} /\\
             \\A p \\in Perms(ms) : CollectThenPick(p, call) = (IF out.res = "run" THEN out.tag ELSE "ambiguous")
 ====
@@ -182,13 +187,19 @@ def lattice():
     return LAT
 
 
+_PAYLOADS = {}
+_TAG_OF = {}
+
+
 def build_fd(o, ran):
-    """Synthesise a Python payload with the overload's signature and wrap it into a FunctionDefinition."""
+    """Synthesise a Python payload with the overload's signature and wrap it into a FunctionDefinition.
+    Overloads with the same Python signature share ONE payload callable (they differ in declared types only); the payload
+    learns which definition invoked it through a hidden FunctionDefinition parameter. An overload with a positional
+    default also gets a keyword-only parameter with a default (never passed by the calls)."""
     from yaql.language import specs, yaqltypes
     lat = lattice()
-    tag = o['tag']
-    pnames = []
-    sig = []
+    pnames = ['fd__']
+    sig = ['fd__']
     seen_default = False
     for i, p in enumerate(o['params']):
         if p['ty'] == 'hidden':
@@ -206,21 +217,39 @@ def build_fd(o, ran):
         pnames.append(nm)
     if o['star'] != 'none':
         sig.append('*rest')
-    env = {'_ran': ran, '_tag': tag}
-    for t in TYPES:
-        env['_DEF_' + t] = lat.val[t if t != 'Any' else 'A']
-    src = 'def payload(%s):\n    _ran.append(_tag)\n    return _tag\n' % ', '.join(sig)
-    exec(src, env)
-    fn = env['payload']
+    if seen_default:
+        if o['star'] == 'none':
+            sig.append('*')
+        sig.append('kwo=10')
+    key = ', '.join(sig)
+    if key not in _PAYLOADS:
+        env = {'_TAG_OF': _TAG_OF, '_RAN': []}
+        for t in TYPES:
+            env['_DEF_' + t] = lat.val[t if t != 'Any' else 'A']
+        src = 'def payload(%s):\n    _t = _TAG_OF[id(fd__)]\n    _t[1].append(_t[0])\n    return _t[0]\n' % key
+        exec(src, env)
+        _PAYLOADS[key] = env['payload']
+    fn = _PAYLOADS[key]
     fd = specs.get_function_definition(fn, name='f', convention=None, function=bool(o['fn']), method=bool(o['me']),
                                        parameter_type_func=lambda n: _ptype(o, n, pnames, lat, yaqltypes))
+    if o.get('nokw'):
+        fd.no_kwargs = True
+    _TAG_OF[id(fd)] = (o['tag'], ran)
+    _KEEP.append(fd)
     return fd
 
 
+_KEEP = []
+
+
 def _ptype(o, n, pnames, lat, yaqltypes):
+    if n == 'fd__':
+        return yaqltypes.FunctionDefinition()
+    if n == 'kwo':
+        return yaqltypes.PythonType(int, nullable=False)
     if n == 'rest':
         return yaqltypes.PythonType(lat.cls[o['star']], nullable=o['star'] == 'Any')
-    p = o['params'][pnames.index(n)]
+    p = o['params'][pnames.index(n) - 1]
     if p['ty'] == 'hidden':
         return yaqltypes.Context()
     return yaqltypes.PythonType(lat.cls[p['ty']], nullable=p['ty'] == 'Any')
@@ -401,6 +430,8 @@ def _fam_short(family):
         ps = ','.join(('%s:%s%s' % (p['name'], p['ty'], '=d' if p['def'] else '')) if p['ty'] != 'hidden' else '<ctx>' for p in o['params'])
         if o['star'] != 'none':
             ps += ',*' + o['star']
+        if o.get('nokw'):
+            ps += ';nokw'
         return '%s%s(%s)' % (o['tag'], {(True, False): '', (False, True): '[m]', (True, True): '[e]'}[(bool(o['fn']), bool(o['me']))], ps)
     return ' | '.join(('!' if l['excl'] else '') + '{' + ' '.join(ov(o) for o in sorted(l['ovs'], key=lambda o: o['tag'])) + '}' for l in family)
 
